@@ -89,6 +89,32 @@ def _grid_case(arg):
             case,
             deviation=dev,
         )
+    # every other documented way of asking for this grid gives the same arrays (added after seeded change C02-C:
+    # a method name that is not all lower case): by size, through the cache (first and second time), other spellings
+    spell = {"lebedev": "Lebedev", "spherical": "SPHERICAL", "maxdet": "MaxDet", "ahrens_beylkin": "Ahrens_Beylkin"}[method]
+    variants = (("by-size", dict(size=size, method=method, cache=False)),
+                ("spelling", dict(degree=degree, method=spell, cache=False)),
+                ("spelling-upper-by-size", dict(size=size, method=method.upper(), cache=False)),
+                ("cache-first", dict(degree=degree, method=method, cache=True)),
+                ("cache-second", dict(degree=degree, method=method, cache=True)),
+                ("cache-spelling-by-size", dict(size=size, method=spell, cache=True)),
+                ("no-cache-after-cache", dict(degree=degree, method=method, cache=False)))
+    for vname, kw in variants:
+        res.count()
+        try:
+            with warnings.catch_warnings():
+                warnings.simplefilter("ignore")
+                gv = AngularGrid(**kw)
+            same = (np.asarray(gv.points).shape == pts.shape and np.array_equal(gv.points, pts) and np.array_equal(gv.weights, wts)
+                    and int(gv.degree) == degree and gv.size == size)
+        except Exception as exc:
+            res.violation(f"{name}:variant:{vname}:raised:{type(exc).__name__}", f"AngularGrid({kw}) raised {type(exc).__name__}: {exc}",
+                          dict(case, variant=vname))
+            continue
+        if not same:
+            res.violation(f"{name}:variant:{vname}:differs", f"AngularGrid({kw}) differs from AngularGrid(degree={degree}, "
+                          f"method={method!r}, cache=False): weight sums {float(np.sum(gv.weights))!r} vs {float(np.sum(wts))!r}",
+                          dict(case, variant=vname))
     lmax = min(degree, lcap)
     mom = harm.moments_f64(lmax, pts, wts)
     ref = np.zeros_like(mom)
